@@ -332,6 +332,85 @@ func runOp(sto blobserver.Storage, spec *bk.Spec, o int, ref *hs.RefMap, uncerta
 	}
 }
 
+// compactionScenario: the encrypt store's meta compaction (triggered by the
+// 101st small meta blob, runs in its own goroutine) with a transient error at
+// every lower-layer call of the window; afterwards the store's own recovery
+// (restart with a wiped meta index) must still serve every acknowledged blob.
+func compactionScenario(spec *bk.Spec) *sched.Config {
+	const n = 101
+	blobs := make([]hs.Blob, n)
+	for i := range blobs {
+		blobs[i] = hs.Mk(fmt.Sprintf("m%d", i), []byte(fmt.Sprintf("small plaintext blob number %d", i)), "")
+	}
+	return &sched.Config{Name: spec.Name + "/meta-compaction", Bound: 0, ChoiceBound: 1, SigPrefix: "C13|" + spec.Name + "|meta-compaction", MaxSteps: 50000,
+		Body: func(x *sched.X) {
+			env := bk.NewEnv()
+			defer env.Close()
+			injecting := false
+			var faultLog []string
+			env.Hook = func(store, op string, br blob.Ref) error {
+				vsync.Point(store + op)
+				if injecting && x.Choose("fault@"+store+op, 2) == 1 {
+					faultLog = append(faultLog, store+op)
+					return hs.ErrInjected
+				}
+				return nil
+			}
+			sto, err := spec.Build(env)
+			if err != nil {
+				panic(err)
+			}
+			acked := map[string]hs.Blob{}
+			for _, b := range blobs[:n-1] {
+				if _, err := blobserver.Receive(ctx, sto, b.Ref, bytes.NewReader(b.Data)); err != nil {
+					panic(err)
+				}
+				acked[b.Name] = b
+			}
+			x.Go("client", func() {
+				injecting = true
+				b := blobs[n-1]
+				if _, err := blobserver.Receive(ctx, sto, b.Ref, bytes.NewReader(b.Data)); err == nil {
+					acked[b.Name] = b
+				}
+			})
+			x.Run() // runs until the compaction goroutine is done too
+			injecting = false
+			if x.Deadlock {
+				x.Fail("hang|faults="+strings.Join(faultLog, ","), "receive or compaction never finished: "+strings.Join(x.S.ParkedLabels(), " "))
+				return
+			}
+			if x.Horizon {
+				return
+			}
+			check := func(phase string, s blobserver.Storage) bool {
+				for _, b := range acked {
+					rc, _, err := s.Fetch(ctx, b.Ref)
+					if err != nil {
+						x.Fail(phase+"|acknowledged-blob-lost|faults="+strings.Join(faultLog, ","), fmt.Sprintf("after a transient failure at %v during the meta compaction, %s: Fetch(%s) fails: %v", faultLog, phase, b.Name, err))
+						return false
+					}
+					d, _ := io.ReadAll(rc)
+					rc.Close()
+					if !bytes.Equal(d, b.Data) {
+						x.Fail(phase+"|wrong-bytes|faults="+strings.Join(faultLog, ","), fmt.Sprintf("%s: Fetch(%s) returned different bytes", phase, b.Name))
+						return false
+					}
+				}
+				return true
+			}
+			if !check("live", sto) {
+				return
+			}
+			rsto, err := spec.Recover(env)
+			if err != nil {
+				x.Fail("recovery-fails|faults="+strings.Join(faultLog, ","), fmt.Sprintf("restart with a wiped meta index fails after a transient failure at %v: %v", faultLog, err))
+				return
+			}
+			check("after-recovery", rsto)
+		}}
+}
+
 func sequences(maxLen int) [][]int {
 	var out [][]int
 	var rec func(cur []int)
@@ -361,6 +440,9 @@ func scenarios() []*sched.Config {
 		sp := &specs[i]
 		for _, seq := range sequences(maxLen) {
 			out = append(out, scenario(sp, seq, bound))
+		}
+		if sp.Name == "encrypt" {
+			out = append(out, compactionScenario(sp))
 		}
 	}
 	return out
